@@ -280,6 +280,8 @@ def table_in_claim(key, mod):
     dim, m, p = key
     if mod == 'optimizers':
         return False
+    if p in ('max_half_window', 'min_half_window'):
+        return mod in O.HW_MODULES
     if p == 'half_window':
         return mod in O.HW_MODULES or m == 'pspline_mpls'
     return True
